@@ -28,7 +28,8 @@ EXTENDS AsCore
 
 CONSTANTS MaxLen, MaxSteps,
           Family,     \* "flat": every line from the whole alphabet;  "macro": MM MACRO, BodyLen body lines, ENDM, then
-          BodyLen     \*          lines that call MM, open / close IFs and REPTs around the calls
+          BodyLen     \*          lines that call MM, open / close IFs and REPTs around the calls;
+                      \* "directed": the programs of Directed (regression seeds: shapes that found something)
 
 VARIABLES prog,    \* source text so far
           rec,     \* record of statements: rec[i] = abstract statement executed at position i
@@ -36,8 +37,9 @@ VARIABLES prog,    \* source text so far
           cnt,     \* remaining iterations of the REPT tags, parallel to s.mp.tags (0 for other tags)
           oc,      \* counts of the REPT headers being recorded, parallel to s.mp.outs (0 for other output tags)
           gh,      \* ghosts: [faulty, image, warns, fin, ok]
-          mode     \* "run" | "done"
-vars == <<l, prog, rec, s, cnt, oc, gh, mode>>
+          mode,    \* "run" | "done"
+          dir      \* Family = "directed": which of the Directed programs is being read (else 0)
+vars == <<l, prog, rec, s, cnt, oc, gh, mode, dir>>
 
 St(k, a) == [k |-> k, a |-> a]
 \* a delivered statement carries the number of its source line (its data bytes are rendered from it)
@@ -48,6 +50,16 @@ Alpha ==
    St("IF", 1), St("IF", 0), St("ELSE", 0), St("ENDIF", 0),
    St("ORG", 128), St("PHASE", 64), St("DEPHASE", 0), St("SAVE", 0), St("RESTORE", 0),
    St("MACRO", 0), St("ENDM", 0), St("CALL", 0), St("EXITM", 0), St("REPT", 0), St("REPT", 2)}
+
+Directed ==
+  << <<St("MACRO", 0), St("SAVE", 0), St("RESTORE", 0), St("SAVE", 0), St("RESTORE", 0), St("ENDM", 0), St("CALL", 0), St("EMIT", 1)>>,
+     <<St("REPT", 2), St("SAVE", 0), St("RESTORE", 0), St("SAVE", 0), St("RESTORE", 0), St("EMIT", 1), St("ENDM", 0)>>,
+     <<St("MACRO", 0), St("IF", 1), St("IF", 1), St("EXITM", 0), St("ENDIF", 0), St("ENDIF", 0), St("ENDM", 0),
+       St("IF", 1), St("CALL", 0), St("EMIT", 1), St("ENDIF", 0)>>,
+     <<St("PHASE", 64), St("MACRO", 0), St("LAB", 0), St("BAD", 0), St("ENDM", 0), St("CALL", 0), St("REPT", 2),
+       St("CALL", 0), St("ENDM", 0), St("DEPHASE", 0), St("LAB", 0)>>,
+     <<St("IF", 0), St("REPT", 2), St("EMIT", 1), St("ENDM", 0), St("EXITM", 0), St("CALL", 0), St("ELSE", 0),
+       St("SAVE", 0), St("UERR", 0), St("UWARN", 0)>> >>
 
 Opts == [werror |-> FALSE, maxerr |-> 0, suppw |-> FALSE, codeout |-> TRUE, throw |-> FALSE]
 NumGeneric == 1840     \* ELSEIF/ENDIF without IF
@@ -61,6 +73,7 @@ Init0 == [ca |-> CA!InitM, ab |-> [AB!InitB(1) EXCEPT !.used = [x \in AB!AllSegs
           mp |-> StartPass(InitMP, 1), cw |-> InitW(FALSE), d |-> DG!PassInit]
 Init == /\ l = 1 /\ prog = <<>> /\ rec = <<>> /\ s = Init0 /\ cnt = <<0>> /\ oc = <<>>
         /\ gh = [faulty |-> 0, image |-> <<>>, warns |-> 0, fin |-> 0, ok |-> TRUE] /\ mode = "run"
+        /\ dir \in (IF Family = "directed" THEN 1..Len(Directed) ELSE {0})
 
 \* ---- source grammar (what the FILE tag may deliver next) ---------------------------------------------------------
 HasMacroOut(outs) == \E i \in 1..Len(outs) : outs[i].kind = "MACRO"
@@ -69,7 +82,8 @@ BodyAlpha == {St("EMIT", 1), St("LAB", 0), St("BAD", 0), St("EXITM", 0), St("IF"
 AfterAlpha == {St("CALL", 0), St("IF", 1), St("IF", 0), St("ENDIF", 0), St("EMIT", 1), St("REPT", 2), St("ENDM", 0),
                St("PHASE", 64)}
 NextSource ==
-  IF Family = "macro" /\ Len(prog) <= BodyLen + 1
+  IF Family = "directed" THEN (IF Len(prog) < Len(Directed[dir]) THEN {Directed[dir][Len(prog) + 1]} ELSE {NONE})
+  ELSE IF Family = "macro" /\ Len(prog) <= BodyLen + 1
   THEN (IF prog = <<>> THEN {St("MACRO", 0)} ELSE IF Len(prog) <= BodyLen THEN BodyAlpha ELSE {St("ENDM", 0)})
   ELSE IF Len(prog) >= MaxLen
   THEN (IF s.mp.outs # <<>> THEN {St("ENDM", 0)} ELSE {NONE})           \* bodies are closed, then the file ends
@@ -167,7 +181,7 @@ RECURSIVE Popped(_)
 Popped(tags) == IF tags # <<>> /\ Head(tags).emp THEN 1 + Popped(Tail(tags)) ELSE 0
 
 Step ==
-  /\ mode = "run" /\ l <= MaxSteps
+  /\ mode = "run" /\ l <= MaxSteps /\ dir' = dir
   /\ LET k    == Popped(s.mp.tags)
          tags == PopEmpty(s.mp.tags)
          c0   == SubSeq(cnt, k + 1, Len(cnt))
